@@ -130,6 +130,16 @@ def run_lists(case, sim):
                 await lb.run_once()
                 il.finish()
             after = {b.hex() for b in dl.ALLOWED_PUBKEYS}
+            # a further refresh with nothing changed: the list keeps its contents
+            await lb.run_once()
+            out["after3"] = {b.hex() for b in dl.ALLOWED_PUBKEYS}
+            static = set()
+            if case.get("service_key", True):
+                static.add(evgen.SERVICE.pub)
+            if case.get("whitelist"):
+                static.add(evgen.AUTHORS[2].pub)
+            out["want_before"] = static | {evgen.AUTHORS[k].pub for k in case["allow0"]}
+            out["want_after"] = static | {evgen.AUTHORS[k].pub for k in case["allow1"]}
             out.update(before=before, after=after, vals=[(v.pubkey, v.outcome, v.started_at, v.finished_at, v.steps) for v in vals],
                        boundaries=il.boundaries, switches=il.switches)
         finally:
@@ -142,6 +152,16 @@ def run_lists(case, sim):
     viol = []
     probes = collections.Counter()
     before, after = out["before"], out["after"]
+    # "the dynamic lists contain exactly the p-tagged pubkeys of the configured queries plus the static whitelist"
+    for name, got, want in (("first", before, out["want_before"]), ("second", after, out["want_after"]),
+                            ("third", out["after3"], out["want_after"])):
+        if got != want:
+            viol.append({"cls": "list-contents", "sig": "list-contents|%s|%s|%s" % (
+                backend, name, "missing" if want - got else "extra"),
+                         "detail": {"refresh": name, "missing": sorted(x[:8] for x in want - got),
+                                    "extra": sorted(x[:8] for x in got - want),
+                                    "whitelist": bool(case.get("whitelist")), "service_key": bool(case.get("service_key", True))}})
+            break
     in_window = 0
     for pk, outcome, s0, s1, steps in out["vals"]:
         listed = pk in before or pk in after
